@@ -126,14 +126,17 @@ pub fn judge_ok(sv: Solver, sys: &Sys, d: &Vec<Vec<f64>>, a: &Sparse<f64>, b: &[
     let tr = true_resid(d, x, b) / bstar;
     let unit = |m: f64| U * (it as f64 + 1.0) * (sys.frob() * m + bn) / bstar;
     let m0 = norm2(x0).max(norm2(x));
-    let mut units = if tr <= tol { 0.0 } else { (tr - tol) / unit(m0) };
+    // (a drift unit that overflows - a guess more than 1e308 times larger than b in the units of A - allows everything: the
+    //  statement's own allowance is proportional to the largest iterate; inf/inf must not read as a violation)
+    let excess = |u: f64| -> f64 { if tr <= tol || !u.is_finite() { 0.0 } else if !tr.is_finite() && u > 1e290 { 0.0 } else { (tr - tol) / u } };
+    let mut units = excess(unit(m0));
     let mut mused = m0;
     // whenever the cheap lower bound on the iterate norms is not already comfortable, obtain the true
     // maximum over the iterates by budget replay (this is the quantity the property's drift term names)
     if units > 1.0 {
         let bv = Vector::create(b.to_vec());
         mused = max_iterate_norm(sv, a, &bv, x0, it, tol).max(m0);
-        units = (tr - tol) / unit(mused);
+        units = excess(unit(mused));
     }
     OkJudgement { excess_units: units, violated: !(units <= drift_units(sv)), detail: format!("true relative residual {:e}, tol {:e}, drift unit {:e} (max iterate norm {:e}), excess {:.2} units > {}", tr, tol, unit(mused), mused, units, drift_units(sv)) }
 }
